@@ -753,6 +753,85 @@ var farProp = vp.Register(vp.Prop[FarCase]{
 
 func TestFar(t *testing.T) { vp.Run(t, farProp) }
 
+// FarReadCase: a LimitReader with a limit around 2^31 / 2^32 whose whole
+// budget is read through buffers of up to 64 MiB from a source that reports
+// full reads without touching the buffer (the oracle counts).  After exactly
+// limit bytes every Read returns 0 bytes and a *LimitError carrying the limit.
+type FarReadCase struct {
+	Limit uint64 `json:"limit"`
+	Sizes []int  `json:"sizes"` // buffer sizes, cycled
+}
+
+type fullReader struct {
+	asked uint64
+}
+
+func (r *fullReader) Read(p []byte) (int, error) {
+	r.asked += uint64(len(p))
+	return len(p), nil
+}
+
+func checkFarRead(c FarReadCase) error {
+	farOnce.Do(func() { farBuf = make([]byte, farBufLen) })
+	src := &fullReader{}
+	r := ioutil.LimitReader(src, c.Limit)
+	var delivered uint64
+	for i := 0; ; i++ {
+		sz := farBufLen
+		if len(c.Sizes) > 0 {
+			sz = min(max(c.Sizes[i%len(c.Sizes)], 1), farBufLen)
+			if sz < farBufLen/2 && i%8 != 0 {
+				sz = farBufLen - sz
+			}
+		}
+		n, err := r.Read(farBuf[:sz])
+		if n < 0 || n > sz {
+			return fmt.Errorf("read %d: Read returned n=%d for a %d-byte buffer", i, n, sz)
+		}
+		delivered += uint64(n)
+		if delivered > c.Limit || src.asked > c.Limit {
+			return fmt.Errorf("read %d: %d bytes delivered, %d requested from the source, limit %d", i, delivered, src.asked, c.Limit)
+		}
+		if err != nil {
+			var le *ioutil.LimitError
+			if delivered != c.Limit || n != 0 || !errors.As(err, &le) || le.Limit != c.Limit {
+				return fmt.Errorf("read %d after %d of limit %d bytes: Read returned (%d, %v), want (0, *LimitError{%d}) once the limit has been delivered", i, delivered, c.Limit, n, err, c.Limit)
+			}
+			// Twice more.
+			for k := 0; k < 2; k++ {
+				n, err = r.Read(farBuf[:8])
+				if n != 0 || !errors.As(err, &le) || le.Limit != c.Limit {
+					return fmt.Errorf("read after the limit %d: Read returned (%d, %v), want (0, *LimitError{%d})", c.Limit, n, err, c.Limit)
+				}
+			}
+			break
+		}
+		if i > 1<<20 {
+			return fmt.Errorf("no *LimitError after %d reads and %d bytes (limit %d)", i, delivered, c.Limit)
+		}
+	}
+	vp.Class("far-read")
+	if c.Limit >= 1<<31 {
+		vp.Class("far-read:limit>=2^31-delivered-in-full")
+	}
+	vp.NonTrivialStr("c15.far-read", fmt.Sprint(c))
+	vp.Sample("far-read", c)
+	return nil
+}
+
+var farReadProp = vp.Register(vp.Prop[FarReadCase]{
+	Kind: "c15.far-read", Base: 300,
+	Gen: func(t *rapid.T) FarReadCase {
+		base := rapid.SampledFrom([]uint64{1 << 31, 1 << 31, 1 << 32, 1<<32 - 1, 3 << 30}).Draw(t, "base")
+		d := rapid.Int64Range(-8, 8).Draw(t, "d")
+		chunk := rapid.OneOf(rapid.Just(farBufLen), rapid.Just(farBufLen-1), rapid.IntRange(farBufLen/2, farBufLen), rapid.IntRange(1, 100))
+		return FarReadCase{Limit: uint64(int64(base) + d), Sizes: rapid.SliceOfN(chunk, 1, 4).Draw(t, "sizes")}
+	},
+	Check: checkFarRead,
+})
+
+func TestFarRead(t *testing.T) { vp.Run(t, farReadProp) }
+
 // NestedCase stacks two limited readers on one stream and reads through both
 // of them in a generated order.
 type NestedCase struct {
